@@ -19,6 +19,7 @@ RULE = (
 )
 ASSUMPTIONS = [
     "nothing is asserted about refusals (the helpers are heuristics)",
+    "types_after is only passed with exactly one entry per split level (can_split and split index shorter lists differently, also upstream)",
     "'applies' = the Transform method returns without any exception and the result passes the reference validator",
 ]
 LEVEL_TEXT = (
@@ -131,7 +132,10 @@ def check(case: dict, ctx: Ctx) -> None:
         for depth in (1, 2, 3):
             for types_after in ((None, ta) if ta else (None,)):
                 nev += 1
-                if types_after is not None and len(types_after) > depth:
+                if types_after is not None and len(types_after) != depth:
+                    # can_split reads types_after[-1] as the innermost type while split indexes it from the
+                    # outermost level: the two only agree when one entry per split level is given (as the
+                    # documented callers do), so other lengths are outside the domain
                     continue
                 o = call("can_split", can_split, doc, pos, depth, types_after)
                 require(o.ok, "can_split:raised", f"can_split({pos},{depth}) raised {o.exc!r}")
